@@ -38,6 +38,8 @@ pub fn cr_d(x: u32) {
 pub fn cr_e(x: u32) -> u32 {
     black_box(x) + 3
 }
+/// a synthetic function alone on its page (mapped by `execute`)
+pub const LONELY_FN: u64 = 0x6100_0000_0040;
 #[inline(never)]
 fn cr_fake_a(x: u32) -> u32 {
     black_box(x) + 500
@@ -185,7 +187,7 @@ pub fn generate(profile: &str, seed: u64, index: u64) -> CrashScenario {
             }
             3 | 4 => {
                 let mut s = st("refused");
-                s.how = (*rng.pick(&["sig_mismatch", "null_ptr", "bool_on_nonbool", "mprotect", "enomem", "async_wrong_type"])).into();
+                s.how = (*rng.pick(&["sig_mismatch", "null_ptr", "bool_on_nonbool", "mprotect", "mprotect_persistent", "enomem", "async_wrong_type"])).into();
                 let pos = rng.below(steps.len() as u64 + 1) as usize;
                 steps.insert(pos, s);
                 steps.truncate(pos + 1);
@@ -250,6 +252,7 @@ fn targets() -> Vec<(&'static str, usize)> {
         ("cr_c", cr_c as fn() -> String as usize),
         ("cr_d", cr_d as fn(u32) as usize),
         ("cr_e", cr_e as fn(u32) -> u32 as usize),
+        ("lonely synthetic function", LONELY_FN as usize),
     ]
 }
 
@@ -273,6 +276,15 @@ fn do_refused(inj: &mut InjectorPP, how: &str) {
             interpose::arm(true);
             inj.when_called(injectorpp::func!(fn (cr_e)(u32) -> u32)).will_execute_raw(injectorpp::func!(fn (cr_fake_a)(u32) -> u32));
         }
+        "mprotect_persistent" => {
+            // a function on a page of its own that can never be made writable (the denial stays
+            // for the whole unwind); no other function lives on that page, so no legitimate restore
+            // is affected
+            let a = LONELY_FN;
+            interpose::set_faults(Faults { mprotect_deny: Some((a & !4095, (a & !4095) + 4096)), ..Default::default() });
+            interpose::arm(true);
+            inj.when_called(unsafe { FuncPtr::new(a as *const (), "fn(u32) -> u32") }).will_execute_raw(injectorpp::func!(fn (cr_fake_a)(u32) -> u32));
+        }
         h => panic!("harness: unknown refusal {h}"),
     }
 }
@@ -285,6 +297,11 @@ pub fn execute(sc: &CrashScenario, sh: &Shared) -> Value {
             viol.push(json!({"tag": tag, "props": props, "detail": detail}));
         }
     };
+    if !crate::arena::map_rw(LONELY_FN & !4095, 4096) {
+        return json!({"skipped": "arena unavailable"});
+    }
+    crate::arena::write_const_fn(LONELY_FN, 0x77);
+    crate::arena::seal_rx(LONELY_FN & !4095, 4096);
     let tg = targets();
     let pristine: Vec<Vec<u8>> = tg.iter().map(|(_, a)| slot(*a)).collect();
     let mut digest = 0xC5u64;
@@ -511,7 +528,7 @@ pub fn execute(sc: &CrashScenario, sh: &Shared) -> Value {
                 v("not-restored-after-unwinding", &["C05", "C02"], format!("{what}: {name} entry bytes {:02x?}, originally {:02x?}", now, pristine[i]));
             }
         }
-        if cr_a(1) != 2 || cr_b(9) != true || cr_b(1) != false || cr_c() != "orig" || cr_e(1) != 4 {
+        if cr_a(1) != 2 || cr_b(9) != true || cr_b(1) != false || cr_c() != "orig" || cr_e(1) != 4 || crate::arena::call_u32(LONELY_FN) != 0x77 {
             v("behaviour-not-original-after-unwinding", &["C05", "C02"], format!("{what}: an original function misbehaves"));
         }
         // ---- a fresh thread gets the guard and can use a new injector normally
